@@ -70,6 +70,7 @@ class Profile(object):
         self.via_ref_floor = True
         self.ref_constraint_rate = 12
         self.via_ref_floor_rate = 30
+        self.ext_rate = 35
         for k, v in kw.items():
             if not hasattr(self, k):
                 raise AttributeError(k)
@@ -368,7 +369,7 @@ class _G(object):
             return t
         lo = 0 if (P.empty_containers and k != 'CHOICE') else 1
         n = self.d(st.integers(lo, P.max_members))
-        has_ext = P.ext and self.chance(35)
+        has_ext = P.ext and self.chance(P.ext_rate)
         n_add = self.d(st.integers(0, 3)) if has_ext else 0
         wide = has_ext and k != 'CHOICE' and P.wide_additions and self.chance(12)
         if wide:
@@ -604,8 +605,9 @@ class _G(object):
         for m in ms:
             sets.append(asn.outer_tag_set(spec, m.ty, mod.name))
         n = len(ms)
+        extensible = node.ext is not None or mod.ext_implied
         if node.kind in ('SET', 'CHOICE'):
-            seen = set()
+            seen = {asn.EXT_TAG} if extensible else set()
             for s in sets:
                 if s & seen:
                     return False
@@ -617,6 +619,12 @@ class _G(object):
                 add_ids.add(id(m))
         ext_impl = mod.ext_implied and node.ext is None
         skippable = [(m.optional or m.has_default or id(m) in add_ids) for m in ms]
+        if extensible:
+            # the extension insertion point is a conceptual optional element (X.680 52.7)
+            pos = len(node.root or []) + len(add_ids) if node.ext is not None else n
+            sets.insert(pos, {asn.EXT_TAG})
+            skippable.insert(pos, True)
+            n += 1
         for i in range(n):
             for j in range(i + 1, n):
                 if all(skippable[i:j]):
